@@ -542,17 +542,19 @@ func (f *FuncCtx) typeSwitch(st *State, x *ast.TypeSwitchStmt, label string) *Fl
 // ---------- loops ----------
 
 type loopTargets struct {
-	vars  map[*types.Var]bool
-	heaps map[string]bool
-	ghost map[string]bool
-	all   bool
+	direct map[*types.Var]bool // assigned as a whole (not only through element stores s[i] = v)
+	vars   map[*types.Var]bool
+	heaps  map[string]bool
+	ghost  map[string]bool
+	all    bool
 }
 
 // assignedIn computes what a loop body may modify (syntactic over-approximation).
 func (f *FuncCtx) assignedIn(nodes ...ast.Node) *loopTargets {
-	lt := &loopTargets{vars: map[*types.Var]bool{}, heaps: map[string]bool{}, ghost: map[string]bool{}}
-	var markLhs func(e ast.Expr)
-	markLhs = func(e ast.Expr) {
+	lt := &loopTargets{vars: map[*types.Var]bool{}, direct: map[*types.Var]bool{}, heaps: map[string]bool{}, ghost: map[string]bool{}}
+	var markLhs0 func(e ast.Expr, viaIndex bool)
+	markLhs := func(e ast.Expr) { markLhs0(e, false) }
+	markLhs0 = func(e ast.Expr, viaIndex bool) {
 		switch x := ast.Unparen(e).(type) {
 		case *ast.Ident:
 			obj := f.tinfo().Defs[x]
@@ -564,6 +566,9 @@ func (f *FuncCtx) assignedIn(nodes ...ast.Node) *loopTargets {
 					lt.heaps["G_"+v.Pkg().Name()+"_"+v.Name()] = true
 				} else {
 					lt.vars[v] = true
+					if !viaIndex {
+						lt.direct[v] = true
+					}
 				}
 			}
 		case *ast.SelectorExpr:
@@ -580,7 +585,7 @@ func (f *FuncCtx) assignedIn(nodes ...ast.Node) *loopTargets {
 				d, v, l := f.w.mapHeapsT(m, f.bv)
 				lt.heaps[d], lt.heaps[v], lt.heaps[l] = true, true, true
 			} else {
-				markLhs(x.X)
+				markLhs0(x.X, true)
 			}
 		case *ast.StarExpr:
 			lt.heaps["P:*"] = true
@@ -624,7 +629,12 @@ func (f *FuncCtx) havocTargets(st *State, lt *loopTargets) {
 	}
 	sort.Slice(vs, func(i, j int) bool { return vs[i].Pos() < vs[j].Pos() })
 	for _, v := range vs {
+		old := st.vars[v]
 		st.vars[v] = f.havocVal(st, "lh_"+v.Name(), v.Type())
+		// a slice that the loop only writes element-wise (s[i] = v) keeps its length
+		if !lt.direct[v] && strings.HasPrefix(old.Sort, "Slice_") && st.vars[v].Sort == old.Sort {
+			st.assume("(= (len_" + old.Sort + " " + st.vars[v].S + ") (len_" + old.Sort + " " + old.S + "))")
+		}
 	}
 	var hs []string
 	if lt.all {
@@ -788,6 +798,15 @@ func (f *FuncCtx) forStmt(st *State, x *ast.ForStmt, label string) *Flow {
 	head := st.clone()
 	f.havocTargets(head, lt)
 	f.assumeInvs(head, ord, nil, x.Pos())
+	// implicit invariant of a counting loop (for i := e; ...; i++ whose body never assigns i): i >= its initial value
+	// (trivially inductive on mathematical integers; not used in bit-vector mode, where i++ may wrap)
+	if cv := f.countingVar(x); cv != nil && !f.bv {
+		if t0, ok := st.vars[cv]; ok && t0.Sort == SInt {
+			if t1, ok := head.vars[cv]; ok {
+				head.assume("(>= " + t1.S + " " + t0.S + ")")
+			}
+		}
+	}
 	var exits []*State
 	// body path
 	body := head.clone()
@@ -821,6 +840,68 @@ func (f *FuncCtx) forStmt(st *State, x *ast.ForStmt, label string) *Flow {
 	}
 	out.Normal = f.merge(exits)
 	return out
+}
+
+// countingVar returns the loop counter of `for i := e; cond; i++ { body }` when the body never assigns i or takes its address.
+func (f *FuncCtx) countingVar(x *ast.ForStmt) *types.Var {
+	as, ok := x.Init.(*ast.AssignStmt)
+	if !ok || len(as.Lhs) != 1 {
+		return nil
+	}
+	id, ok := as.Lhs[0].(*ast.Ident)
+	if !ok {
+		return nil
+	}
+	inc, ok := x.Post.(*ast.IncDecStmt)
+	if !ok || inc.Tok != token.INC {
+		return nil
+	}
+	pid, ok := inc.X.(*ast.Ident)
+	if !ok || pid.Name != id.Name {
+		return nil
+	}
+	obj := f.tinfo().Defs[id]
+	if obj == nil {
+		obj = f.tinfo().Uses[id]
+	}
+	v, ok := obj.(*types.Var)
+	if !ok {
+		return nil
+	}
+	clean := true
+	ast.Inspect(x.Body, func(n ast.Node) bool {
+		switch y := n.(type) {
+		case *ast.AssignStmt:
+			for _, l := range y.Lhs {
+				if li, ok := ast.Unparen(l).(*ast.Ident); ok && f.tinfo().Uses[li] == v {
+					clean = false
+				}
+			}
+		case *ast.IncDecStmt:
+			if li, ok := ast.Unparen(y.X).(*ast.Ident); ok && f.tinfo().Uses[li] == v {
+				clean = false
+			}
+		case *ast.UnaryExpr:
+			if y.Op == token.AND {
+				if li, ok := ast.Unparen(y.X).(*ast.Ident); ok && f.tinfo().Uses[li] == v {
+					clean = false
+				}
+			}
+		case *ast.FuncLit:
+			clean = false // closures may capture and assign the counter
+		case *ast.RangeStmt:
+			for _, l := range []ast.Expr{y.Key, y.Value} {
+				if li, ok := l.(*ast.Ident); ok && y.Tok == token.ASSIGN && f.tinfo().Uses[li] == v {
+					clean = false
+				}
+			}
+		}
+		return true
+	})
+	if !clean {
+		return nil
+	}
+	return v
 }
 
 func (f *FuncCtx) unrollFor(st *State, x *ast.ForStmt, label string, n int, out *Flow) *Flow {
